@@ -96,33 +96,15 @@ def race_line(ps, modes):
 
 
 def extracted_modes():
-    """'s'/'t' per function (next, close, disconnect, housekeeping) from the current source; None if a function mixes forms"""
-    from props import c10 as base
-    from Pyro5 import server
-    tree = ast.parse(open(server.__file__).read())
-    out = ""
-    for cls, fn in (("DaemonObject", "get_next_stream_item"), ("DaemonObject", "close_stream"), ("Daemon", "_clientDisconnect"),
-                    ("Daemon", "_housekeeping")):
-        forms = set(base._removals(base._find_func(tree, cls, fn)))
-        if forms == {"del"} or forms == {"pop"}:
-            out += "s"
-        elif forms == {"pop-default"}:
-            out += "t"
-        else:
-            return None
-    return out
+    """'s'/'t' per function (next, close, disconnect, housekeeping): probed behaviour (does the removal tolerate a vanished key)"""
+    from props import c10_probe
+    return c10_probe.modes()
 
 
 def housekeeper_guarded():
-    """does Housekeeper.run (svr_threads.py) catch exceptions of a housekeeping pass?  (it does not: a failing pass ends the thread)"""
-    from Pyro5 import svr_threads
-    tree = ast.parse(open(svr_threads.__file__).read())
-    for n in tree.body:
-        if isinstance(n, ast.ClassDef) and n.name == "Housekeeper":
-            for f in n.body:
-                if isinstance(f, ast.FunctionDef) and f.name == "run":
-                    return any(isinstance(x, ast.Try) for x in ast.walk(f))
-    raise ValueError("source shape: svr_threads.Housekeeper.run not found")
+    """does a failing housekeeping pass leave the Housekeeper thread alive?  probed on svr_threads.Housekeeper.run"""
+    from props import c10_probe
+    return c10_probe.housekeeper_guarded()
 
 
 # ---- one controlled execution ---------------------------------------------------------------------------------
